@@ -23,7 +23,7 @@ static void make_sig(rsig *s, int variant, int form, const rk_cert *signer) {
 		p.nchains = 2; p.nlinks[0] = 2; p.nlinks[1] = 1; p.chain_alg[1] = RH_SHA256;
 		p.link_desc[0][0] = 0u | (LC[variant] << 3); p.link_desc[0][1] = 1 | (1 << 1); p.link_desc[1][0] = 1;
 	}
-	p.aggr_time = FX_T0; p.pub_time = FX_P0; p.tail = form; p.with_rfc3161 = variant >= 5;
+	p.aggr_time = FX_T0; p.pub_time = FX_P0; p.tail = form; p.with_rfc3161 = variant >= 5 && variant <= 7;
 	p.doc_seed += g_doc_seed_bump;
 	rs_build(s, &p);
 	if (variant == 7) {
@@ -58,6 +58,7 @@ static void world_open(world_t *w, int pol, int variant) {
 	make_sig(&w->model, variant, form, &fx_auth_cert);
 	vb_init(&sb); vb_init(&pf);
 	rs_serialize(&w->model, &sb);
+	if (vf_replaying() && getenv("C02_DEBUG")) fprintf(stderr, "[C02] signature variant %d: %s\n", variant, vf_hex(sb.p, sb.n > 160 ? 160 : sb.n));
 	if (KSI_Signature_parseWithPolicy(w->ctx, sb.p, sb.n, KSI_VERIFICATION_POLICY_EMPTY, NULL, &w->sig) != KSI_OK) vf_harness_error("fixture signature refused");
 	{
 		rsig om;
@@ -123,6 +124,7 @@ static void judge(const world_t *w, const char *api, int exp, int rc, int have_r
 	static const char *EN[] = {"OK", "GEN-01", "GEN-04", "GEN-03", "refused", "not-OK"};
 	vf_outcome("%s:%s:expect-%s:%s", PNAME[w->pol], api, EN[exp], ok ? "OK" : rc != KSI_OK ? "error" : result_code == KSI_VER_RES_FAIL ? "FAIL" : "NA");
 	vf_obs("rc=%x r=%d e=%x", rc, have_result ? result_code : -1, have_result ? error_code : -1);
+	if (vf_replaying() && getenv("C02_DEBUG")) fprintf(stderr, "[C02] %s %s: expect %s, rc=0x%x result=%d error=0x%x\n", api, detail, EN[exp], rc, have_result ? result_code : -1, have_result ? error_code : -1);
 	if (exp == E_OK) { if (!ok) vf_fail("own-document-refused", "%s/%s %s: own document hash and admissible level but rc 0x%x result %d error 0x%x", PNAME[w->pol], api, detail, rc, result_code, error_code); return; }
 	if (ok) { vf_fail("foreign-document-accepted", "%s/%s %s: verification succeeded, expected %s", PNAME[w->pol], api, detail, EN[exp]); return; }
 	if (!have_result) return;                          /* status-only interfaces: failure is all that is observable */
